@@ -4,6 +4,7 @@
 // cancels the call at the report site), and afterwards the emitter must behave like a fresh one that was given only
 // the calls that succeeded.
 #include "sim/sim.h"
+#include "gen/a64forms.h"
 #include "gen/prog.h"
 
 #include <asmjit/core.h>
@@ -23,8 +24,8 @@ using sim::Rng;
 
 namespace {
 
-enum OpKind : uint16_t { kValidStep, kCall, kBadBind, kBadAlign, kBadEmbedLabel, kBadEmbedDelta, kBadSection, kBadNamedLabel, kBadEmbedArray, kOpCount };
-const char* const kOpNames[kOpCount] = {"valid_step", "call", "bad_bind", "bad_align", "bad_embed_label", "bad_embed_label_delta", "bad_section", "bad_named_label", "bad_embed_array"};
+enum OpKind : uint16_t { kValidStep, kCall, kBadBind, kBadAlign, kBadEmbedLabel, kBadEmbedDelta, kBadSection, kBadNamedLabel, kBadEmbedArray, kA64Form, kOpCount };
+const char* const kOpNames[kOpCount] = {"valid_step", "call", "bad_bind", "bad_align", "bad_embed_label", "bad_embed_label_delta", "bad_section", "bad_named_label", "bad_embed_array", "a64_form"};
 const char* op_name(uint16_t k) { return k < kOpCount ? kOpNames[k] : "?"; }
 
 enum HandlerMode { kHandlerNone = 0, kHandlerRecording, kHandlerThrowing, kHandlerModeCount };
@@ -97,6 +98,120 @@ Operand build_operand(gen::Target t, const OperandText& o, const Labels& ls, con
       return m;
     }
   }
+}
+
+// ---- AArch64: a harvested database form with its operand kinds kept and everything else perturbed -------------------------
+// Op: a[0] form index, a[1] perturbation seed, a[2] mask of operands that are perturbed, a[3] one-shot state bits.
+// The kind of every operand (register of the same type, memory, immediate, label) stays what the form has; ids, element
+// types and indices, base/index ids, offsets, shifts, extends, offset modes, immediates and label ids are re-drawn.
+uint32_t perturbed_id(Rng& r) {
+  static const uint32_t edge[] = {31, 32, 33, 63, 64, 127, 128, 254, 255, 256, 1000, 0xffffu, 0x7fffffffu, 0xffffffffu};
+  return r.chance(2, 3) ? uint32_t(r.below(32)) : r.pick(edge);
+}
+int64_t perturbed_imm(Rng& r) {
+  static const int64_t edge[] = {0, 1, -1, 7, 8, 15, 16, 31, 32, 63, 64, 65, 127, 128, 255, 256, 4095, 4096, 4097, 0xffff, 0x10000, 0xffffff, 0x1000000, 0x7fffffff, 0x80000000ll, 0xffffffffll, 0x100000000ll,
+                                 int64_t(0x7fffffffffffffffll), int64_t(0x8000000000000000ull), -4096, -4097, -256, -257, 0x00ff00ff00ff00ffll, 0x5555555555555555ll};
+  switch (r.below(4)) { case 0: return int64_t(r.below(64)); case 1: return r.pick(edge); case 2: return int64_t(r.next()); default: return int64_t(r.below(1 << 20)) - (1 << 19); }
+}
+void perturb_a64_operand(Operand_& op, Rng& r, const Labels& ls, const CodeHolder& code) {
+  if (op.is_reg()) {
+    Reg& reg = op.as<Reg>();
+    if (r.chance(2, 3)) reg.set_id(perturbed_id(r));
+    if (reg.is_vec()) {
+      a64::Vec& v = op.as<a64::Vec>();
+      if (r.chance(1, 3)) v.set_element_type(a64::VecElementType(r.below(8)));
+      // an element operand stays an element operand and an arrangement stays an arrangement (the operand kind is kept):
+      // only the index of an operand that has one is re-drawn
+      if (v.has_element_index() && r.chance(1, 2)) v.set_element_index(uint32_t(r.chance(3, 4) ? r.below(17) : r.below(64)));
+    }
+  }
+  else if (op.is_mem()) {
+    a64::Mem& m = op.as<a64::Mem>();
+    if (m.has_base_label()) { Label l = select_label(ls, r.chance(1, 2) ? int64_t(r.below(8)) : -int64_t(1 + r.below(8)), code); m.set_base_id(l.id()); }
+    else if (m.has_base_reg() && r.chance(1, 2)) m.set_base_id(perturbed_id(r));
+    if (m.has_index() && r.chance(1, 2)) m.set_index_id(perturbed_id(r));
+    if (r.chance(1, 2)) { int64_t o = perturbed_imm(r); m.set_offset(r.chance(1, 2) ? int64_t(int32_t(o)) : o); }
+    if (r.chance(1, 4)) m.set_shift(uint32_t(r.below(r.chance(1, 2) ? 5 : 64)));
+    if (r.chance(1, 6)) m.set_shift_op(a64::ShiftOp(r.below(16)));
+    if (r.chance(1, 5)) { switch (r.below(3)) { case 0: m.make_pre_index(); break; case 1: m.make_post_index(); break; default: m.reset_offset_mode(); break; } }
+  }
+  else if (op.is_imm()) {
+    Imm& i = op.as<Imm>();
+    if (r.chance(3, 4)) i.set_value(perturbed_imm(r));
+    if (r.chance(1, i.predicate() != 0 ? 4 : 10)) i.set_predicate(uint32_t(r.below(16)));
+  }
+  else if (op.is_label()) {
+    op = select_label(ls, r.chance(1, 2) ? int64_t(r.below(8)) : -int64_t(1 + r.below(8)), code);
+  }
+}
+
+// An independent (and deliberately small) statement of AArch64 operand constraints, written from the architecture manual
+// and not from the assembler: a call for which this returns true cannot denote any instruction, so the emitter must
+// report an error. It only covers constraints that leave no room for a convenience re-interpretation by the assembler.
+bool a64_known_invalid(uint32_t inst_id, const Operand_* o, const Operand_* form_ops, uint32_t n, const char** why) {
+  namespace I = a64::Inst;
+  uint32_t id = uint32_t(BaseInst::extract_real_id(inst_id));
+  auto gp_bits = [&](uint32_t k) -> uint32_t { if (k >= n || !o[k].is_reg()) return 0; RegType t = o[k].as<Reg>().reg_type(); return t == RegType::kGp32 ? 32u : t == RegType::kGp64 ? 64u : 0u; };
+  auto is_imm = [&](uint32_t k) { return k < n && o[k].is_imm(); };
+  auto imm = [&](uint32_t k) { return o[k].as<Imm>().value(); };
+  auto pred = [&](uint32_t k) { return o[k].as<Imm>().predicate(); };
+  auto same_gp = [&](uint32_t count) -> uint32_t { uint32_t b = gp_bits(0); for (uint32_t k = 1; k < count; k++) if (gp_bits(k) != b) return 0; return b; };
+  // register ids: general purpose 0..30, 31 (sp) and 63 (zr); vectors 0..31; memory base 0..31; index 0..30 and 63
+  for (uint32_t k = 0; k < n; k++) {
+    if (o[k].is_reg()) {
+      const Reg& r = o[k].as<Reg>(); uint32_t rid = r.id();
+      if ((r.is_gp() && rid > 31 && rid != 63) || (r.is_vec() && rid > 31)) { *why = "register id out of range"; return true; }
+      if (r.is_vec() && o[k].as<a64::Vec>().has_element_index()) {
+        // The element size an instruction works with is taken from one of its vector operands (which one depends on the
+        // instruction): an index that does not exist even for the smallest element size any operand of the call - or of
+        // the form it was derived from - names cannot be right.
+        uint32_t idx = o[k].as<a64::Vec>().element_index(), min_et = 8;
+        for (uint32_t j = 0; j < n; j++) for (const Operand_* set : {o, form_ops}) if (set[j].is_reg() && set[j].as<Reg>().is_vec()) { uint32_t e = uint32_t(set[j].as<a64::Vec>().element_type()); if (e >= 1 && e <= 4 && e < min_et) min_et = e; else if (e == 0 || e > 4) min_et = 1; }
+        if (min_et <= 4 && idx >= (16u >> (min_et - 1))) { *why = "vector element index beyond the 128-bit register"; return true; }
+      }
+    }
+    else if (o[k].is_mem()) {
+      const a64::Mem& m = o[k].as<a64::Mem>();
+      if (m.has_base_reg() && m.base_id() > 31) { *why = "memory base register id out of range"; return true; }
+      if (m.has_index() && m.index_id() > 31 && m.index_id() != 63) { *why = "memory index register id out of range"; return true; }
+    }
+  }
+  switch (id) {
+    case I::kIdAdd: case I::kIdAdds: case I::kIdSub: case I::kIdSubs: case I::kIdAnd: case I::kIdAnds: case I::kIdBic: case I::kIdBics: case I::kIdEon: case I::kIdEor: case I::kIdOrr: case I::kIdOrn:
+      if (n == 4 && is_imm(3) && pred(3) <= 3) {
+        uint32_t b = same_gp(3);
+        if (b && (imm(3) < 0 || imm(3) >= int64_t(b))) { *why = "shift amount of a shifted-register operand not below the register size"; return true; }
+        if (b && pred(3) == 3 && (id == I::kIdAdd || id == I::kIdAdds || id == I::kIdSub || id == I::kIdSubs)) { *why = "ror is not a shift of add/sub"; return true; }
+      }
+      break;
+    case I::kIdCmp: case I::kIdCmn: case I::kIdTst: case I::kIdNeg: case I::kIdNegs: case I::kIdMvn:
+      if (n == 3 && is_imm(2) && pred(2) <= 3) { uint32_t b = same_gp(2); if (b && (imm(2) < 0 || imm(2) >= int64_t(b))) { *why = "shift amount not below the register size"; return true; } }
+      break;
+    case I::kIdTbz: case I::kIdTbnz:
+      if (n == 3 && is_imm(1)) { uint32_t b = gp_bits(0); if (b && (imm(1) < 0 || imm(1) >= int64_t(b))) { *why = "tested bit does not exist in the register"; return true; } }
+      break;
+    case I::kIdLsl: case I::kIdLsr: case I::kIdAsr: case I::kIdRor:
+      if (n == 3 && is_imm(2)) { uint32_t b = same_gp(2); if (b && (imm(2) < 0 || imm(2) >= int64_t(b))) { *why = "shift amount not below the register size"; return true; } }
+      break;
+    case I::kIdUbfx: case I::kIdSbfx: case I::kIdBfxil: case I::kIdBfi: case I::kIdUbfiz: case I::kIdSbfiz:
+      if (n == 4 && is_imm(2) && is_imm(3)) { uint32_t b = same_gp(2); if (b && (imm(2) < 0 || imm(2) >= int64_t(b) || imm(3) < 1 || imm(3) > int64_t(b) || imm(2) + imm(3) > int64_t(b))) { *why = "bit field outside the register"; return true; } }
+      break;
+    case I::kIdBfm: case I::kIdUbfm: case I::kIdSbfm:
+      if (n == 4 && is_imm(2) && is_imm(3)) { uint32_t b = same_gp(2); if (b && (imm(2) < 0 || imm(2) >= int64_t(b) || imm(3) < 0 || imm(3) >= int64_t(b))) { *why = "immr/imms not below the register size"; return true; } }
+      break;
+    case I::kIdExtr:
+      if (n == 4 && is_imm(3)) { uint32_t b = same_gp(3); if (b && (imm(3) < 0 || imm(3) >= int64_t(b))) { *why = "lsb not below the register size"; return true; } }
+      break;
+    case I::kIdCcmp: case I::kIdCcmn:
+      if (n == 4 && is_imm(2) && (imm(2) < 0 || imm(2) > 15)) { *why = "nzcv beyond 4 bits"; return true; }
+      if (n == 4 && is_imm(1) && (imm(1) < 0 || imm(1) > 31)) { *why = "5-bit immediate out of range"; return true; }
+      break;
+    case I::kIdSvc: case I::kIdHvc: case I::kIdSmc: case I::kIdBrk: case I::kIdHlt:
+      if (n == 1 && is_imm(0) && (imm(0) < 0 || imm(0) > 0xffff)) { *why = "16-bit immediate out of range"; return true; }
+      break;
+    default: break;
+  }
+  return false;
 }
 
 // ---- state observation ------------------------------------------------------------------------------------------------
@@ -186,6 +301,50 @@ CallResult perform(Subject& s, const gen::Program& prog, const Op& op, bool* mus
         if (op.a[2]) e.set_extra_reg(Reg::from_type_and_id(RegType(uint32_t(op.a[2] >> 16) % 32u), uint32_t(op.a[2]) & 0xffffu));
         if (op.a[3] & 1) e.set_inline_comment("one-shot comment");
         r.err = e.emit_op_array(InstId(uint32_t(op.a[0])), ops, n);
+        break;
+      }
+      case kA64Form: {
+        const std::vector<gen::A64Form>& forms = gen::a64_forms();
+        if (forms.empty()) break;
+        const gen::A64Form& f = forms[size_t(op.a[0]) % forms.size()];
+        Operand_ ops[6];
+        for (uint32_t k = 0; k < f.op_count; k++) {
+          ops[k] = f.ops[k];
+          Rng pr(sim::mix64(uint64_t(op.a[1]) * 0x9E3779B97F4A7C15ull + k));
+          if (ops[k].is_label() || (ops[k].is_mem() && ops[k].as<a64::Mem>().has_base_label())) {
+            // the form's own label (id 0 of the harvesting holder) means nothing here: always re-select it
+            Rng lr(sim::mix64(uint64_t(op.a[1]) + 77 * k));
+            Label l = select_label(s.labels, int64_t(lr.below(8)), s.code);
+            if (ops[k].is_label()) ops[k] = l; else ops[k].as<a64::Mem>().set_base_id(l.id());
+          }
+          if ((uint64_t(op.a[2]) >> k) & 1) perturb_a64_operand(ops[k], pr, s.labels, s.code);
+          // a label the holder does not know, as operand or as memory base, must make the call fail
+          uint32_t label_id = ops[k].is_label() ? ops[k].as<Label>().id() : (ops[k].is_mem() && ops[k].as<a64::Mem>().has_base_label()) ? ops[k].as<a64::Mem>().base_id() : 0u;
+          if ((ops[k].is_label() || (ops[k].is_mem() && ops[k].as<a64::Mem>().has_base_label())) && !s.code.is_label_valid(label_id)) { invalid_label_ref = true; s.last_invalid_label_ids.push_back(label_id); }
+        }
+        if (op.a[3] & 2) e.set_inst_options(InstOptions(uint32_t(sim::mix64(uint64_t(op.a[1]) ^ 0x51) & 0xffffffffu) & ~uint32_t(InstOptions::kReserved)));
+        if (op.a[3] & 4) e.set_extra_reg(Reg::from_type_and_id(RegType(uint32_t(op.a[1] >> 8) % 32u), uint32_t(op.a[1]) & 0xffu));
+        if (op.a[3] & 1) e.set_inline_comment("one-shot comment");
+        {
+          String sb;
+          for (uint32_t k = 0; k < f.op_count; k++) { if (k) sb.append(", "); const Operand_& o = ops[k];
+            if (o.is_reg()) sb.append_format("reg(t%u,id%u,sig%#x)", unsigned(o.as<Reg>().reg_type()), o.as<Reg>().id(), o.signature().bits());
+            else if (o.is_mem()) sb.append_format("mem(sig%#x,base%u,index%u,off%lld)", o.signature().bits(), o.as<a64::Mem>().base_id(), o.as<a64::Mem>().index_id(), (long long)o.as<a64::Mem>().offset());
+            else if (o.is_imm()) sb.append_format("imm(%lld,pred%u)", (long long)o.as<Imm>().value(), o.as<Imm>().predicate());
+            else if (o.is_label()) sb.append_format("label(%u)", o.as<Label>().id()); else sb.append("none"); }
+          sim::logf("a64 form #%zu '%s' -> %s", size_t(op.a[0]) % forms.size(), f.text.c_str(), sb.data());
+        }
+        { const char* why = nullptr; if (a64_known_invalid(f.inst_id, ops, f.ops, f.op_count, &why)) { *must_fail_out = true; s.last_must_fail_other = true; sim::logf("  must fail: %s", why); sim::count("c14.probe.a64_constraint_violated"); } }
+        r.err = e.emit_op_array(InstId(f.inst_id), reinterpret_cast<const Operand*>(ops), f.op_count);
+        if (getenv("SIM_C14_A64_STATS") && *must_fail_out && !invalid_label_ref) {
+          if (r.err == Error::kOk && s.emitter_kind == 0) {
+            const char* why = nullptr; a64_known_invalid(f.inst_id, ops, f.ops, f.op_count, &why);
+            String nm; InstAPI::inst_id_to_string(Arch::kAArch64, f.inst_id, InstStringifyOptions::kNone, nm);
+            String sig; for (uint32_t k = 0; k < f.op_count; k++) { const Operand_& o = ops[k]; if (o.is_reg()) sig.append_format("R%u:%u,", unsigned(o.as<Reg>().reg_type()), o.as<Reg>().id() > 31 && o.as<Reg>().id() != 63 ? 999u : o.as<Reg>().id() == 63 ? 63u : o.as<Reg>().id() == 31 ? 31u : 0u); else if (o.is_mem()) sig.append_format("M%u:%u:%d%d,", o.as<a64::Mem>().base_id() > 31 ? 999u : 0u, o.as<a64::Mem>().has_index() ? 1u : 0u, int(o.as<a64::Mem>().is_pre_index()), int(o.as<a64::Mem>().is_post_index())); else if (o.is_imm()) sig.append("I,"); else sig.append("L,"); }
+            char b[160]; snprintf(b, sizeof b, "c14.stat.accepted|%s|%s(%s)", why, nm.data(), sig.data()); for (char* q = b; *q; q++) if (*q == ' ') *q = '_'; sim::count(b);
+          }
+          *must_fail_out = false; s.last_must_fail_other = false;
+        }
         break;
       }
       case kBadBind: {
@@ -290,7 +449,7 @@ void execute(const Plan& plan) {
         if (hm != kHandlerNone && op.kind != kBadNamedLabel && op.kind != kBadSection) {
           if (r.handler_calls == 0) sim::count("c14.probe.error_without_handler_call"); else if (r.handler_calls > 1) sim::count("c14.probe.handler_called_more_than_once");
           // The statement requires the error to be reported through the return value AND the attached handler.
-          if (op.kind == kCall || op.kind == kValidStep) SIM_CHECK(r.handler_calls >= 1, "c14:error-not-reported-to-handler", "%s returned error %u but the attached error handler was never invoked", op_name(op.kind), unsigned(r.err));
+          if (op.kind == kCall || op.kind == kA64Form || op.kind == kValidStep) SIM_CHECK(r.handler_calls >= 1, "c14:error-not-reported-to-handler", "%s returned error %u but the attached error handler was never invoked", op_name(op.kind), unsigned(r.err));
         }
       }
       else {
@@ -418,6 +577,15 @@ Plan generate(uint64_t seed, bool thorough) {
       uint32_t which = uint32_t(r.below(12));
       if (which < 7) {
         op.kind = kCall;
+        if (target == 2 && r.chance(3, 4) && !gen::a64_forms().empty()) {
+          op.kind = kA64Form;
+          op.a[0] = int64_t(r.below(gen::a64_forms().size()));
+          op.a[1] = int64_t(r.next() & 0x7fffffffffffll);
+          op.a[2] = r.chance(1, 6) ? 0 : int64_t(r.chance(1, 2) ? (1u << r.below(4)) : r.below(64));   // which operands are perturbed (0: the valid form itself)
+          op.a[3] = r.chance(2, 3) ? 0 : int64_t(r.below(8));
+          p.ops.push_back(op);
+          continue;
+        }
         if (target == 2) perturbed_a64_call(r, op);
         else {
           op.a[0] = int64_t(r.chance(9, 10) ? r.below(x86::Inst::_kIdCount) : x86::Inst::_kIdCount + r.below(200));
@@ -448,6 +616,12 @@ void shrink(const Plan& p, std::vector<Plan>& out) {
   for (const char* k : zero_keys) if (p.get(k)) { Plan q = p; q.set(k, 0); out.push_back(q); }
   // drop operands of calls one by one (not on AArch64, where the operand kinds of a form must be kept)
   for (size_t i = 0; i < p.ops.size(); i++) {
+    if (p.ops[i].kind == kA64Form) {
+      // fewer perturbed operands, less one-shot state
+      for (int b = 0; b < 6; b++) if ((p.ops[i].a[2] >> b) & 1) { Plan q = p; q.ops[i].a[2] &= ~(int64_t(1) << b); out.push_back(q); }
+      for (int b = 0; b < 3; b++) if ((p.ops[i].a[3] >> b) & 1) { Plan q = p; q.ops[i].a[3] &= ~(int64_t(1) << b); out.push_back(q); }
+      continue;
+    }
     if (p.ops[i].kind != kCall) continue;
     if (p.get("target") == 2) { for (int k = 1; k <= 3; k++) if (p.ops[i].a[k]) { Plan q = p; q.ops[i].a[k] = 0; out.push_back(q); } continue; }
     const std::string& s = p.ops[i].s;
@@ -552,6 +726,9 @@ Plan generate_virt(uint64_t seed, bool thorough) {
 }
 
 const char* op_name_virt(uint16_t k) { static const char* const n[] = {"valid_add", "bad_virt_id", "wrong_register_group", "bad_virt_mem_base", "bad_virt_mem_index"}; return k >= kVirtValid && k <= kVirtBadMemIndex ? n[k - kVirtValid] : op_name(k); }
+
+void warmup_forms() { (void)gen::a64_forms(); }
+struct WarmForms { WarmForms() { sim::register_warmup(warmup_forms); } } warm_forms;
 
 const sim::Scenario kScenario = {"C14", "invalid-calls", "asan", 250000, 5000000, generate, execute, op_name, shrink, nullptr};
 const sim::Scenario kVirt = {"C14", "compiler-virt-regs", "asan", 20000, 400000, generate_virt, execute_virt, op_name_virt, nullptr, nullptr};
